@@ -279,6 +279,13 @@ theorem wfH_of_set (h : Header) (id : UInt8) (v : Bytes) (h' : Header) (hl : leg
     | _ :: _ :: _, hl'' => simp at hl''
   simp only [C01.wfH, hfx.1, hfx.2.1, hfx.2.2, hfix.1, hfix.2.1, hfix.2.2, hel, hsize, decide_true, Bool.and_self]
 
+/-! ### helper for the sharpness witnesses -/
+
+theorem parseTwoByte_zeros (n : Nat) : parseTwoByte (List.replicate n 0) = .ok [] := by
+  induction n with
+  | zero => simp [parseTwoByte]
+  | succ n ih => rw [List.replicate_succ, parseTwoByte.eq_def]; simpa using ih
+
 /-! ### after the wire -/
 
 /-- C01's header round trip, as C05 uses it (corea proves it as `c01_header_roundtrip`): a
